@@ -316,6 +316,78 @@ def binary(op, x, y):
     return None
 
 
+def reparse(res):
+    """result string of a fold step -> operand tuple for the next step (None if it cannot continue)"""
+    if res is None or res.startswith("err:"):
+        return None
+    if res == "n:nan":
+        return ("n", math.nan)
+    return parse_operand(res)
+
+
+def variadic(op, args):
+    """(op a b c ...) = left fold of the binary operator; comparators: every adjacent pair"""
+    if op in ARITH:
+        acc = args[0]
+        for z in args[1:]:
+            r = binary(op, acc, z)
+            if r is None:
+                return None
+            acc = reparse(r)
+            if acc is None:
+                return r
+        return r
+    if op in COMPARATORS:
+        for a, b in zip(args, args[1:]):
+            r = binary("=" if op == "not=" else op, a, b)
+            if r is None:
+                return None
+            if r == "b:0":
+                return "b:%d" % (op == "not=")
+        return "b:%d" % (op != "not=")
+    return None
+
+
+METHOD_OPS = {"+": "+", "-": "-", "*": "*", "/": "/", "%": "%", "mod": "mod", "div": "div", "&": "band", "|": "bor", "^": "bxor", "<<": "blshift", ">>": "brshift"}
+VARIADIC_METHODS = {"+", "-", "*", "/", "%", "&", "|", "^", "<<", ">>", "r+", "r*", "r&", "r|", "r^"}
+
+
+def method_call(name, args):
+    """(:name a0 a1 ...): the method of the boxed integer a0, applied to all arguments in a0's type.
+    Looping methods take any number >= 2 of arguments; the reversed non-commutative ones, s64 `div`/`mod` and `compare` exactly 2."""
+    if args[0][0] not in "su":
+        raise Err("nomethod")
+    kind = args[0][0]
+    base = name[1:] if name.startswith("r") and name[1:] in METHOD_OPS else name
+    if base not in METHOD_OPS:
+        return None
+    if base in ("<<", ">>") and name.startswith("r"):
+        raise Err("nomethod")
+    if len(args) < 2:
+        raise Err("arity")
+    variadic_ok = name in VARIADIC_METHODS or (kind == "u" and name in ("div", "mod"))
+    if len(args) > 2 and not variadic_ok:
+        raise Err("arity")
+    op = METHOD_OPS[base]
+    vals = [None] * len(args)
+    if name.startswith("r") and len(args) == 2 and name not in VARIADIC_METHODS:
+        # reversed: box = argv[1] first, then argv[0]
+        b = to_int(kind, args[1])
+        a = to_int(kind, args[0])
+        return int_binop(op, kind, b, a)
+    acc = to_int(kind, args[0])
+    res = None
+    for z in args[1:]:
+        b = to_int(kind, z)
+        res = int_binop(op, kind, acc, b)
+        if res is None:
+            return None
+        acc = int(res[2:])
+        if op == "mod" and b == 0:
+            return res          # DIVZERO_mod returns the value computed so far
+    return res
+
+
 def expected(line):
     """protocol line -> expected result string, or None (no claim)"""
     tok = line.split()
@@ -351,6 +423,10 @@ def expected(line):
                     return num(~int(v))
                 return None
             raise Err("nomethod")
+        if op.startswith("m:"):
+            return method_call(op[2:], args)
+        if len(args) > 2:
+            return variadic(op, args)
         if len(args) == 1:
             if op in UNARY_CONST:
                 return binary(op, ("n", float(UNARY_CONST[op])), args[0])
@@ -517,6 +593,35 @@ def gen_lines(rng, per_combo, n_random):
             for _ in range(max(20, per_combo // 10)):
                 k = rng.choice([0, 1, -1, 2, 7, -7, 63, 64, 100, 127, -128, 31, 32])
                 lines.append("imm %s %s %d" % (op, P.fmt(ta, rng.choice(pa)), k))
+    # variadic forms (left fold through the VM operator chain) and method calls with 2..4 arguments
+    def rnd_operand(t):
+        pool = P.pool(t, core=rng.chance(1, 2))
+        return P.fmt(t, rng.choice(pool))
+    small = {"n": [f2b(float(v)) for v in (0, 1, -1, 2, 3, 7, -7, 63)], "s": [0, 1, -1, 2, 3, 7, -7, 63], "u": [0, 1, 2, 3, 7, 63], "t": ["0", "1", "-1", "2", "3", "7"]}
+    for op in ARITH + COMPARATORS:
+        for _ in range(max(40, per_combo // 3)):
+            n = rng.range(3, 4)
+            ts = [rng.choice("nsut" if rng.chance(1, 4) else "nsu") for _ in range(n)]
+            if op in COMPARATORS and op not in ("=", "not=") and "s" in ts and "u" in ts:
+                ts = ["s" if t == "u" else t for t in ts]
+            toks = []
+            for i, t in enumerate(ts):
+                if i > 0 and (op in SHIFTS or op in ("/", "div", "mod", "%")) and rng.chance(2, 3):
+                    toks.append(P.fmt(t, rng.choice(small[t])))
+                else:
+                    toks.append(rnd_operand(t))
+            lines.append("%s %s" % (op, " ".join(toks)))
+    for name in ["+", "-", "*", "/", "%", "mod", "div", "&", "|", "^", "<<", ">>", "r+", "r-", "r*", "r/", "r%", "rmod", "rdiv", "r&", "r|", "r^", "r<<"]:
+        for _ in range(max(30, per_combo // 6)):
+            n = rng.range(1, 4)
+            ts = [rng.choice("su" if rng.chance(9, 10) else "nt")] + [rng.choice("nsut" if rng.chance(1, 4) else "nsu") for _ in range(n - 1)]
+            toks = []
+            for i, t in enumerate(ts):
+                if i > 0 and rng.chance(1, 2):
+                    toks.append(P.fmt(t, rng.choice(small[t])))
+                else:
+                    toks.append(rnd_operand(t))
+            lines.append("m:%s %s" % (name, " ".join(toks)))
     # the two static comparison functions, directly
     dbl_edges = [f2b(v) for v in (2.0 ** 53, -2.0 ** 53, 2.0 ** 63, -2.0 ** 63, 2.0 ** 64, 2.0 ** 53 + 2, 2.0 ** 62, 0.0, -0.0, 0.5, -0.5, math.inf, -math.inf,
                                   math.nextafter(2.0 ** 63, 0), math.nextafter(2.0 ** 63, math.inf), math.nextafter(2.0 ** 64, 0), math.nextafter(2.0 ** 64, math.inf),
